@@ -91,3 +91,17 @@ Example ex_std_nonzero : ~ ages_std ex_params == 0.
 Proof. vm_compute. discriminate. Qed.
 Example ex_conditional_mean : 0 < 1 # 4 /\ 0 < 1 # 2 /\ exists b, intercept_re [1; 2; 3] ((1 # 4) / (1 # 2)) = Ok b.
 Proof. repeat split. eexists. reflexivity. Qed.
+
+(** hypotheses of the penalised least-squares theorem: a symmetric positive semi-definite penalty *)
+Example ex_psd : let P := Mat2 1 0 0 1 in m12 P == m21 P /\ forall v, 0 <= quad P v.
+Proof.
+  split; [reflexivity|]. intros [a b]. unfold quad. simpl.
+  setoid_replace (a * (1 * a + 0 * b) + b * (0 * a + 1 * b)) with (a * a + b * b) by ring.
+  setoid_replace 0 with (0 + 0) by ring.
+  assert (S : forall x : Q, 0 <= x * x).
+  { intros x. destruct (Qlt_le_dec x 0) as [H|H].
+    - setoid_replace (x * x) with ((- x) * (- x)) by ring.
+      apply Qmult_le_0_compat; apply (Qopp_le_compat x 0); now apply Qlt_le_weak.
+    - now apply Qmult_le_0_compat. }
+  apply Qplus_le_compat; apply S.
+Qed.
